@@ -17,7 +17,7 @@ theorem facts02_rt : facts02.GoodRT := ⟨by decide, by decide, by decide, by de
 theorem facts02_mp : facts02.mpNameAnyKey = true := by decide
 
 /-- soft-validating configuration of protocol `p` -/
-def softCfg (p : Proto) (iw : Bool) : Cfg := ⟨p, .soft, iw, .dict, false, false, true⟩
+def softCfg (p : Proto) (iw : Bool) : Cfg := ⟨p, .soft, iw, .dict, false, false, true, [], []⟩
 
 /-- (⇐) Every request whose arguments satisfy the declared constraints is accepted under soft validation — the user
     function runs, with exactly those arguments — in every protocol of the family and both wrapper modes. -/
@@ -30,7 +30,7 @@ theorem hier_soft_accepts_conformant (p : Proto) (iw : Bool) (R : Registry)
       (requestDoc (softCfg p iw) (convSpell facts08 (softCfg p iw) .dict) R (.obj name ns base fields o) (.obj name args))
       = .good (.obj name args) :=
   request_roundtrip R (convCtx leafLaws08 facts02_rt .dict (Or.inl rfl)) (reqKey_str facts02_mp _ rfl) name ns base fields o
-    args hwf hc (fun hm => ⟨by simpa [fitsV] using hmp hm, fun h => by cases h⟩) (by simpa [plain, convSpell] using hpl)
+    args hwf hc (fun hm => ⟨by simpa [fitsV] using hmp hm, fun h => by cases h⟩) (by simpa [plain, convSpell] using hpl) rfl
 
 /-- The verdict for the same logical request is the same over JSON, YAML, MessagePack and MessagePack-RPC (and both
     wrapper modes): a conformant request is accepted by all of them with the same arguments. -/
@@ -53,54 +53,65 @@ theorem facts02_good : facts02.Good :=
   ⟨by decide, by decide, by decide, by decide, by decide, by decide, by decide, by decide, by decide, by decide,
    by decide, by decide, by decide, by decide, by decide⟩
 
+/-- a class with `validate_freq=False` only loses the occurrence check of its own members: kinds and facets are still checked,
+    also in nested objects (witness: `{"owner": 5}` for a Unicode member of such a class is a fault; two values for
+    `max_occurs=1`… are accepted) -/
+theorem facts02_nofreq : facts02.noFreqKeepsValidation = true := by decide
+
+/-- the enumeration facet treats the falsy values of a kind ('' / 0 / 0.0 / False) like any other value: only `None` passes
+    for a nillable type -/
+theorem facts02_values_none : facts02.valuesNullTestIsNone = true := by decide
+
 /-- `validate_string` is applied to Unicode text that arrives as bytes as well -/
 theorem facts02_bint : facts02.binTextValidated = true := by decide
 
 /-- (⇒) Whatever document a client sends, in any protocol of the family and either wrapper mode: if soft validation
     lets it through, the decoded value satisfies EVERY declared constraint of its type — nullability, min/max
     occurrence (counted per value), integer ranges and fixed-width bounds, string length, pattern, enumeration, lexical
-    well-formedness — at every nesting position. (Types without registered subclasses: `conformsOne` demands the exact
+    well-formedness — at every nesting position. `hnf`: no class opts out of the occurrence check (`validate_freq=False`
+    classes keep every kind and facet check — `hier_decode_sound` holds for them, and `facts02_nofreq` — but not min/max_occurs
+    of their own members). (Types without registered subclasses: `conformsOne` demands the exact
     class; `c05Ty`: wrapped arrays are optional or nillable, see the known finding on required arrays.) -/
-theorem hier_soft_accepts_only_conformant (cfg : Cfg) (hs : cfg.validator = .soft)
+theorem hier_soft_accepts_only_conformant (cfg : Cfg) (hs : cfg.validator = .soft) (hnf : cfg.noFreq = [])
     (t : Ty) (hwf : wfTy t = true) (h5 : c05Ty t = true) (d : Doc) (v : Val) (l : Bool)
     (h : decode facts08 facts02 cfg [] t d = .ok v l) : l = false ∧ conformsOne t v = true := by
-  have := decode_ex (cfg := cfg) leafLaws08 facts02_good facts02_bint d t hwf h5
+  have := decode_ex (cfg := cfg) leafLaws08 facts02_good ⟨facts02_bint, hnf⟩ d t hwf h5
   rw [h] at this
   exact this (by simp [Cfg.soft, hs])
 
 /-- The same for a whole request: the user function only runs with argument tuples that conform. -/
-theorem hier_soft_request_only_conformant (cfg : Cfg) (hs : cfg.validator = .soft)
+theorem hier_soft_request_only_conformant (cfg : Cfg) (hs : cfg.validator = .soft) (hnf : cfg.noFreq = [])
     (name ns : Text) (base : Option Text) (fields : Fields) (o : Occ)
     (hwf : wfTy (.obj name ns base fields o) = true) (h5 : c05Ty (.obj name ns base fields o) = true)
     (d : Doc) (v : Val) (l : Bool)
     (h : decodeRequest facts08 facts02 cfg [] (.obj name ns base fields o) d = .ok v l) :
     l = false ∧ (conformsOne (.obj name ns base fields o) v = true ∨ v = .obj name []) := by
-  have := decodeRequest_ex (cfg := cfg) leafLaws08 facts02_good facts02_bint facts02_body name ns base fields o hwf h5 d
+  have := decodeRequest_ex (cfg := cfg) leafLaws08 facts02_good ⟨facts02_bint, hnf⟩ facts02_body name ns base fields o hwf h5 d
   rw [h] at this
   exact this (by simp [Cfg.soft, hs])
 
 /-- `hier_soft_iff_conforms`: for a value of the declared shape, written the way the protocol writes it, soft validation
     accepts it — and hands exactly that value on — if and only if it satisfies the declared constraints.
     JSON and YAML in full; MessagePack under the side conditions of its own round trip (`fitsV`, `mpReadable`). -/
-theorem hier_soft_iff_conforms (cfg : Cfg) (hs : cfg.validator = .soft) (hsc : cfg.selfConsistent = true)
+theorem hier_soft_iff_conforms (cfg : Cfg) (hs : cfg.validator = .soft) (hnf : cfg.noFreq = []) (hsc : cfg.selfConsistent = true)
     (t : Ty) (hwf : wfTy t = true) (h5 : c05Ty t = true) (v : Val) (hv : v ≠ .none)
     (hmp : cfg.proto.isMsgpack = true → fitsV facts08 v = true ∧ mpReadable t = true)
     (hpl : plain cfg.complexAs t v = true) :
     decode facts08 facts02 cfg [] t (encOne [] (ownSpell facts08 cfg) t v) = .good v ↔ conformsOne t v = true := by
   constructor
   · intro h
-    exact (hier_soft_accepts_only_conformant cfg hs t hwf h5 _ v false h).2
+    exact (hier_soft_accepts_only_conformant cfg hs hnf t hwf h5 _ v false h).2
   · intro hc
     exact rt_ty [] (ownCtx leafLaws08 facts02_rt hsc) t v hv hwf hc
       (fun hm => ⟨(hmp hm).1, fun _ => (hmp hm).2⟩) (by simpa [ownSpell] using hpl)
 
 /-- A value that violates a declared constraint is never handed to user code as it is: its own encoding is not
     accepted with that value (it is refused, or — never under the proved soundness — altered). -/
-theorem hier_soft_rejects_nonconformant (cfg : Cfg) (hs : cfg.validator = .soft)
+theorem hier_soft_rejects_nonconformant (cfg : Cfg) (hs : cfg.validator = .soft) (hnf : cfg.noFreq = [])
     (t : Ty) (hwf : wfTy t = true) (h5 : c05Ty t = true) (v : Val) (hnc : conformsOne t v = false) (d : Doc) (l : Bool) :
     decode facts08 facts02 cfg [] t d ≠ .ok v l := by
   intro h
-  have := (hier_soft_accepts_only_conformant cfg hs t hwf h5 d v l h).2
+  have := (hier_soft_accepts_only_conformant cfg hs hnf t hwf h5 d v l h).2
   rw [hnc] at this; cases this
 
 /-! ### non-vacuity -/
